@@ -14,7 +14,11 @@ MANIFEST = dict(
          "(first tick >= last_modified+health marks unhealthy, a later tick >= last_modified+instance removes, under the invariant "
          "armed = every healthy instance under the clock has its (last_modified,key) entry queued), armed_step/armed_reachable "
          "(that invariant is preserved by every op whose cluster-synced updates satisfy sync_ok), update_arms, refresh_rearms "
-         "(take-over, after repair 0b8b679; the old code's failure kept as a refuted regression statement).  Tied to the code by "
+         "(take-over, after the repair; the old code's failure kept as a refuted regression statement); the per-round budget "
+         "once_time_check_size modelled literally with the service-map iteration order as a parameter: "
+         "budget_never_drops_due_entries (every service is handled completely or left untouched, for ANY order and budget), "
+         "budget_first_visited, budget_incomplete_costs (a round cut short handled >= budget keys), budget_complete_is_time_check, "
+         "budget_rounds_bound (budget * rounds cut short <= 2|healthy set|+|unhealthy set| during silence).  Tied to the code by "
          "running the REAL NamingActor with the cfg(rnacos_verif) logical clock and hooked 300/600 ms time-outs against the model "
          "(full state incl. both time-out sets after every op), an independent timing oracle, and a small wall-clock run.",
     note="PARTIAL: proved for the logical clock of one node. Runtime only (sampled, not proved): wall-clock jitter of the 2 s driver "
@@ -23,7 +27,11 @@ MANIFEST = dict(
          "Known finding C13:sync-into-own-range-unarmed (not repaired): an instance arriving by a from_sync path (UpdateFromSync / "
          "UpdateBatch / ReceiveSnapshot) for a service in this node's own range is stored as locally owned but never queued, so it "
          "does not expire until a heartbeat arrives; excluded from armed_step by sync_ok, refuted witness in Props/C13.v. Instances "
-         "REGISTERED unhealthy are outside expires_after_silence (HTTP handlers always register healthy=true).",
+         "REGISTERED unhealthy are outside expires_after_silence (HTTP handlers always register healthy=true). The HashMap iteration "
+         "order of service_map is read from the implementation's dump before each budgeted tick and passed to the model (like the "
+         "DefaultHasher values); the budget oracle (complete-or-untouched, cut-short-only-after-budget, potential decrease, "
+         "starvation bound) is order-independent. now < time-out (negative i64 -> u64 cast) is not modelled: observation in the "
+         "evidence notes (the real code drains every queued entry unhandled); excluded by cfg_ok.",
     technique="Rocq proof (per-key characterisation of time_check, invariants, induction over histories) + model/implementation "
               "correspondence with a logical clock + sampled wall-clock run",
     design="3/C13",
@@ -62,6 +70,72 @@ def in_range(op, sk, hashes):
     return h % ln == idx
 
 
+def svc_actions(svc, now):
+    """number of keys one Service::time_check pushes to its two result lists (what the per-round budget
+    counts), recomputed from the dumped service alone"""
+    insts = {e["mk"]: dict(e["i"]) for e in svc["instances"]}
+    n = 0
+    for t, k in svc["uset"]:
+        if t <= now - I:
+            i = insts.get(k)
+            if i is None or (enabled(i) and i["lm"] <= now - I):
+                n += 1
+                insts.pop(k, None)
+    for t, k in svc["hset"]:
+        if t <= now - H:
+            i = insts.get(k)
+            if i is None or (enabled(i) and i["lm"] <= now - H):
+                n += 1
+                if i is not None:
+                    i["he"] = False
+    return n
+
+
+def svc_due(svc, now):
+    return any(t <= now - H for t, _ in svc["hset"]) or any(t <= now - I for t, _ in svc["uset"])
+
+
+def potential(state):
+    return sum(2 * len(s["hset"]) + len(s["uset"]) for s in state["services"])
+
+
+def budget_oracle(prev_state, cur_state, now, budget, ix):
+    """one round of the driver: every service is handled completely or left untouched (no due entry is
+    dropped), a round is cut short only after `budget` keys were handled, and the potential
+    2*|healthy set| + |unhealthy set| drops by at least the number of handled keys.
+    Returns (violations, set of service keys that were left untouched although work was due)"""
+    bad = []
+    cur = {tuple(s["map_key"]): s for s in cur_state["services"]}
+    handled = 0
+    deferred = set()
+    for s in prev_state["services"]:
+        sk = tuple(s["map_key"])
+        after = cur.get(sk)
+        if after is None:
+            bad.append(("service-vanished", "service %s vanished on a tick" % (sk,), ix))
+            continue
+        same = all(after[f] == s[f] for f in ("instances", "hset", "uset", "size", "hsize"))
+        if same and svc_due(s, now):
+            deferred.add(sk)
+            continue
+        if same:
+            continue
+        handled += svc_actions(s, now)
+        left_h = [e for e in after["hset"] if e[0] <= now - H]
+        left_u = [e for e in s["uset"] if e[0] <= now - I and e in after["uset"]
+                  and after["uset"].count(e) >= s["uset"].count(e)]
+        if left_h or left_u:
+            bad.append(("due-entry-left", "service %s was handled by the tick but due entries remain queued: healthy %s unhealthy %s"
+                        % (sk, left_h, left_u), ix))
+    if deferred and handled < budget:
+        bad.append(("round-cut-short", "services %s with due entries were left out although only %d keys (< budget %d) were handled"
+                    % (sorted(deferred), handled, budget), ix))
+    if potential(cur_state) + handled > potential(prev_state):
+        bad.append(("potential", "2*|healthy set|+|unhealthy set| went from %d to %d while %d keys were handled"
+                    % (potential(prev_state), potential(cur_state), handled), ix))
+    return bad, deferred
+
+
 def timing_oracle(case, steps, hashes):
     """safety and liveness of the heartbeat clock, from the implementation's dumps and the logical
     times only.  Returns list of (key, what, op index)."""
@@ -70,9 +144,28 @@ def timing_oracle(case, steps, hashes):
     last_write = {}   # address -> "direct" | "sync"
     marked = set()    # addresses marked unhealthy by a tick (not registered unhealthy)
     taken = set()     # HTTP addresses synced from another node whose service this node took over
+    budget = case["cfg"].get("n", 10000)
+    prev_state = {"services": []}
+    waiting = 0       # consecutive rounds that left due work out
+    phi_start = 0
     for ix, (op, st) in enumerate(zip(case["ops"], steps)):
         now = st["now"]
-        cur = all_instances(nc.canon_impl_state(st["st"]))
+        cur_state = nc.canon_impl_state(st["st"])
+        cur = all_instances(cur_state)
+        deferred = set()
+        if op[0] == "check":
+            b, deferred = budget_oracle(prev_state, cur_state, now, budget, ix)
+            bad += b
+            if deferred and waiting == 0:
+                phi_start = potential(prev_state)
+            waiting = waiting + 1 if deferred else 0
+            # budget * (rounds cut short) <= potential at the start of the streak (C13_budget_rounds_bound); writes in between
+            # only add to the potential, so the streak bound is re-based on every registration / heartbeat
+            if deferred and budget > 0 and waiting > phi_start // budget + 1:
+                bad.append(("starved", "due work left out for %d consecutive rounds (potential %d at the start, budget %d)" %
+                            (waiting, phi_start, budget), ix))
+        elif touched_keys(op) and waiting:
+            phi_start = potential(cur_state) + waiting * budget
         for key, how in touched_keys(op):
             last_write[key] = how
             marked.discard(key)
@@ -86,6 +179,8 @@ def timing_oracle(case, steps, hashes):
                         marked.add(key)
         if op[0] == "check":
             for key, v in prev.items():
+                if key[0] in deferred:
+                    continue            # the whole service waits for a later round (judged by budget_oracle)
                 after = cur.get(key)
                 age = now - v["lm"]
                 if key in taken and v["ep"] and not v["fg"] and v["fc"] != 0 and v["he"] and age >= H and after is not None and after["he"]:
@@ -116,6 +211,7 @@ def timing_oracle(case, steps, hashes):
                 if key not in prev:
                     bad.append(("appeared", "instance %s appeared on a tick" % (key,), ix))
         prev = cur
+        prev_state = cur_state
     return bad
 
 
@@ -155,6 +251,31 @@ def timing_case(rng):
         else:
             ops.append(["qlist", g.sk(), rng.random() < 0.5])
     return {"cfg": dict(nc.CFG), "ops": ops, "dump": "all", "services": [list(k) for k in g.services]}
+
+
+def budget_case(rng):
+    """several services, many HTTP instances, a small per-round budget: mass failures, staggered beats"""
+    svcs = rng.sample(nc.SERVICE_POOL, rng.choice([2, 3, 4]))
+    keys = list(range(rng.choice([2, 3, 5])))
+    cfg = dict(nc.CFG)
+    cfg["n"] = rng.choice([1, 2, 3, 5])
+    ops = []
+    for sk in svcs:
+        for k in keys:
+            ops.append(["upd", list(sk), nc.mk_inst(k), list(nc.TAG_ALL), False])
+        if rng.random() < 0.5:
+            ops.append(["tick", rng.choice([10, 100])])
+    for _ in range(rng.choice([8, 12, 16])):
+        x = rng.random()
+        if x < 0.35:
+            ops.append(["tick", rng.choice([100, 299, 300, 301, 400, 600])])
+        elif x < 0.85:
+            ops.append(["check"])
+        else:
+            ops.append(["upd", list(rng.choice(svcs)), nc.mk_inst(rng.choice(keys)), list(nc.TAG_BEAT), False])
+    ops += [["tick", 700]] + [["check"]] * 6 + [["tick", 700]] + [["check"]] * 6
+    ops += [["qall", list(sk)] for sk in svcs]
+    return {"cfg": cfg, "ops": ops, "dump": "all", "services": [list(k) for k in svcs]}
 
 
 def nasty_cases():
@@ -270,7 +391,7 @@ def run(chk, replay=None):
         replay = None
         n = 800 if tier == "quick" else 6000
         kf = known_finding_cases()
-        cases = nasty_cases() + [timing_case(rng) for _ in range(n)]
+        cases = nasty_cases() + [budget_case(rng) for _ in range(n // 8)] + [timing_case(rng) for _ in range(n)]
     impl = lib.harness_run_parallel("naming", cases + kf)
     impl_kf = impl[len(cases):]
     impl = impl[:len(cases)]
@@ -310,7 +431,7 @@ def run(chk, replay=None):
     mism = 0
     allc = cases + kf
     try:
-        vals = lib.coq_eval_sharded("c13", nc.HEADER, [nc.model_expr(c, hashes) for c in allc], per=5 if tier == "quick" else 40, timeout=1800)
+        vals = lib.coq_eval_sharded("c13", nc.HEADER, [nc.model_expr(c, hashes, steps=r.get("steps")) for c, r in zip(allc, impl + impl_kf)], per=5 if tier == "quick" else 40, timeout=1800)
     except RuntimeError as ex:
         chk.violation("model evaluation failed: %s" % str(ex)[:300], {"broken": "model evaluation", "log": str(ex)[-3000:]}, False)
         vals = None
@@ -327,6 +448,23 @@ def run(chk, replay=None):
                                   {"suite": "naming", "case": dict(c, ops=c["ops"][:ix + 1]), "diff": d,
                                    "correspondence": "Naming.Script.run_dump"}, False)
                     break
+
+    # ---- outside the model's domain (observation only): a clock that is still below the time-outs.  The real code computes
+    # a negative i64 limit, casts it to u64 (drains EVERY queued entry) and then skips every instance (last_modified > negative)
+    if not replay:
+        try:
+            mk = nc.mk_inst
+            sk = [1, 1, 1]
+            early = {"cfg": dict(nc.CFG, t0=100), "dump": "all", "services": [sk], "ops": [
+                ["upd", sk, mk(0), list(nc.TAG_ALL), False], ["check"], ["tick", 2000], ["check"], ["tick", 1000], ["check"], ["qall", sk]]}
+            r = lib.harness_run("naming", [early], tag="naming_early")[0]
+            chk.notes["clock_below_timeouts_observation"] = {
+                "healthy_set_after_first_tick": r["steps"][1]["st"]["services"][0]["hset"],
+                "hosts_after_3s_of_silence": [(h["k"], h["he"]) for h in r["steps"][-1]["out"]["hosts"]],
+                "meaning": "with now < time-out (system clock within 33 s of the epoch; excluded by cfg_ok) the queued entries are drained "
+                           "unhandled and the instance never expires; not modelled (N subtraction saturates), not judged"}
+        except Exception as ex:     # observation only
+            chk.notes["clock_below_timeouts_observation"] = "failed: %s" % ex
 
     # ---- wall clock (runtime part; a timing-only discrepancy is retried once with the same schedule, then reported inconclusive)
     if not replay:
